@@ -77,11 +77,14 @@ inductive Await where
   | wait
 deriving Repr, DecidableEq
 
-/-- One evaluation of the loop body of `awaitOpenSlotForStreamLocked`. -/
+/-- One evaluation of the loop body of `awaitOpenSlotForStreamLocked`. Reservations are not
+counted: the request has given its own back and the others belong to requests queued behind it
+on `reqHeaderMu` (before the repair they were counted and a queue could stall, see
+corpus/C17/strict_stall.ops). -/
 def CC.await (c : CC) : Await :=
   if c.closed && c.nextID == 1 && c.reserved == 0 then .notEstablished
   else if c.closed || !c.idleCanTake then .unusable
-  else if c.count < c.maxConc then .go
+  else if c.streams.length + c.pendingResets < c.maxConc then .go
   else .wait
 
 /-- `addStreamLocked` -/
@@ -290,6 +293,9 @@ structure Mon where
   holds `reqHeaderMu` (it has given up its reservation and sits in `awaitOpenSlotForStreamLocked`) -/
   q : Nat → List Nat := fun _ => []
   wantPing : Option Nat := none
+  /-- connections on which `cc.cond.Broadcast()` ran in the current step (a stream was forgotten
+  or a PING ack cleared pending resets): the head waiter has re-evaluated its condition -/
+  woke : List Nat := []
 
 def setAt {α : Type} (f : Nat → α) (c : Nat) (v : α) : Nat → α := fun k => if k = c then v else f k
 
@@ -334,7 +340,7 @@ def Mon.mech (m : Mon) : Ev → Except String Mon
   | .cend c id =>
     let cc := m.cc c
     -- the stream leaves cc.streams once both directions have ended
-    if id ∈ (m.w c).sEnd then .ok { m with cc := setAt m.cc c (cc.forget id) } else .ok m
+    if id ∈ (m.w c).sEnd then .ok { m with cc := setAt m.cc c (cc.forget id), woke := c :: m.woke } else .ok m
   | .crst c id code =>
     let cc := m.cc c
     if !(id ∈ cc.streams) then
@@ -346,25 +352,31 @@ def Mon.mech (m : Mon) : Ev → Except String Mon
       else .error s!"crst: stream {id} is not in the model of conn {c}"
     else if code = 8 then
       let (cc', ping) := cc.noteCancelReset id
-      .ok { m with cc := setAt m.cc c (cc'.forget id), wantPing := if ping then some c else m.wantPing }
-    else .ok { m with cc := setAt m.cc c (cc.forget id) }
+      .ok { m with cc := setAt m.cc c (cc'.forget id), wantPing := if ping then some c else m.wantPing,
+                   woke := c :: m.woke }
+    else .ok { m with cc := setAt m.cc c (cc.forget id), woke := c :: m.woke }
   | .ping c =>
     if m.wantPing = some c then .ok { m with wantPing := none }
     else .error s!"ping: model of conn {c} sends no PING here"
   | .sresp c id es =>
     let cc := (m.cc c).frameRead true
-    let cc := if es && id ∈ cc.streams && id ∈ (m.w c).cEnd then cc.forget id else cc
-    .ok { m with cc := setAt m.cc c cc }
+    let gone := es && id ∈ cc.streams && id ∈ (m.w c).cEnd
+    let cc := if gone then cc.forget id else cc
+    .ok { m with cc := setAt m.cc c cc, woke := if gone then c :: m.woke else m.woke }
   | .sdata c id =>
     let cc := (m.cc c).frameRead true
-    let cc := if id ∈ cc.streams && id ∈ (m.w c).cEnd then cc.forget id else cc
-    .ok { m with cc := setAt m.cc c cc }
+    let gone := id ∈ cc.streams && id ∈ (m.w c).cEnd
+    let cc := if gone then cc.forget id else cc
+    .ok { m with cc := setAt m.cc c cc, woke := if gone then c :: m.woke else m.woke }
   | .srst c id _ =>
     let cc := (m.cc c).frameRead false
-    let cc := if id ∈ cc.streams then cc.forget id else cc
-    .ok { m with cc := setAt m.cc c cc }
+    let gone := id ∈ cc.streams
+    let cc := if gone then cc.forget id else cc
+    .ok { m with cc := setAt m.cc c cc, woke := if gone then c :: m.woke else m.woke }
   | .setMax c v => .ok { m with cc := setAt m.cc c ((m.cc c).settings v) }
-  | .pingAck c => .ok { m with cc := setAt m.cc c (m.cc c).pingAck }
+  | .pingAck c =>
+    .ok { m with cc := setAt m.cc c (m.cc c).pingAck,
+                 woke := if (m.cc c).pendingResets > 0 then c :: m.woke else m.woke }
   | .snap c n res pr mx nx =>
     let cc := m.cc c
     if cc.streams.length != n then .error s!"snapshot conn {c}: {n} streams, model {cc.streams.length}"
@@ -377,7 +389,12 @@ def Mon.mech (m : Mon) : Ev → Except String Mon
   | .eol =>
     match m.wantPing with
     | some c => .error s!"model of conn {c} bundles a PING with the RST_STREAM; none was seen"
-    | none => .ok m
+    | none =>
+      -- progress at quiescence: a head waiter that was woken in this step and whose condition
+      -- holds in the model must have been let through
+      match m.woke.find? (fun c => !(m.q c).isEmpty && (m.cc c).await == .go) with
+      | some c => .error s!"conn {c}: a request still waits although streams+pending resets {(m.cc c).streams.length + (m.cc c).pendingResets} < limit {(m.cc c).maxConc}"
+      | none => .ok { m with woke := [] }
   | _ => .ok m
 
 /-- One event: property check on the wire state, lock-step check, then both updates. -/
